@@ -174,6 +174,7 @@ class Tracer:
                                 if isinstance(t, ast.Attribute) and isinstance(t.value, ast.Name) and t.value.id == "self":
                                     self.shared_streams.add(t.attr)
         self._state_tab: Optional[Dict[str, Dict[str, ast.AST]]] = None
+        self._rewinders: Dict[str, bool] = {}
 
     # ------------------------------------------------------------------ entry
     def run(self, fi: FuncInfo, stream_param: Optional[str] = None, self_is_stream=False,
@@ -615,7 +616,7 @@ class Tracer:
             marks = []
             for item in s.items:
                 c = item.context_expr
-                if isinstance(c, ast.Call) and isinstance(c.func, ast.Attribute) and c.func.attr == "scoped_seek":
+                if isinstance(c, ast.Call) and isinstance(c.func, ast.Attribute) and self.is_rewinding_cm(c.func.attr):
                     marks.append(self.stream_of(c.func.value, st))
             if not any(m is not None for m in marks):
                 return self.block(s.body, states, fr)
@@ -1137,7 +1138,7 @@ class Tracer:
                 if not self._flag(node, "peek", 1):
                     n = node.args[0] if node.args else next((k.value for k in node.keywords if k.arg == "num_bytes"), None)
                     self._event(st, recv_stream, ("B", self.sym(n, st, fr)), node, fr)
-            elif attr in NEUTRAL_STREAM_METHODS:
+            elif attr in NEUTRAL_STREAM_METHODS or self.is_rewinding_cm(attr):
                 pass
             elif attr == "clear" and not node.args:
                 if self.record in (None, recv_stream):
@@ -1245,6 +1246,35 @@ class Tracer:
                     if g.module is fr.mod and g.cls is None and g.parent_fn is None:
                         return g
         return None
+
+    def is_rewinding_cm(self, attr: str, depth=0) -> bool:
+        """A stream method that is (a thin wrapper around) scoped_seek: `def peeking(self): return self.scoped_seek(..)`,
+        or a context manager whose body is `with self.scoped_seek(..): yield`."""
+        if attr == "scoped_seek":
+            return True
+        if depth > 2:
+            return False
+        hit = self._rewinders.get(attr)
+        if hit is not None:
+            return hit
+        self._rewinders[attr] = False
+        res = False
+        for f in self.repo.funcs.get(attr, []):
+            if f.cls is None or self.repo.lookup_method(f.cls, "scoped_seek") is None:
+                continue
+            body = [b for b in f.node.body if not (isinstance(b, ast.Expr) and isinstance(b.value, ast.Constant))]
+
+            def wraps(call):
+                return isinstance(call, ast.Call) and isinstance(call.func, ast.Attribute) and \
+                    isinstance(call.func.value, ast.Name) and call.func.value.id == "self" and \
+                    self.is_rewinding_cm(call.func.attr, depth + 1)
+            if len(body) == 1 and isinstance(body[0], ast.Return) and wraps(body[0].value):
+                res = True
+            if len(body) == 1 and isinstance(body[0], ast.With) and any(wraps(i.context_expr) for i in body[0].items) \
+                    and all(isinstance(x, ast.Expr) and isinstance(x.value, (ast.Yield, ast.YieldFrom)) for x in body[0].body):
+                res = True
+        self._rewinders[attr] = res
+        return res
 
     def is_stream_ctor(self, call: ast.Call, st: Optional[St] = None) -> bool:
         """BufferWriter(..) / se.BufferReader(..), or self.X(..) / cls.X(..) where the class attribute X is bound to
